@@ -115,7 +115,23 @@ func (cx *Ctx) newVFlow(entryKey string, entries ...*ssa.Function) *VFlow {
 						continue
 					}
 					ms := w.Prog.MethodSets.MethodSet(mi.X.Type())
+					// through an interface the module declares for itself only that interface's methods can be called
+					var only *types.Interface
+					if in := namedOf(mi.Type()); in != nil && in.Obj().Pkg() != nil && isModulePath(in.Obj().Pkg().Path()) && !in.Obj().Exported() {
+						only, _ = in.Underlying().(*types.Interface)
+					}
 					for i := 0; i < ms.Len(); i++ {
+						if only != nil {
+							has := false
+							for k := 0; k < only.NumMethods(); k++ {
+								if only.Method(k).Name() == ms.At(i).Obj().Name() {
+									has = true
+								}
+							}
+							if !has {
+								continue
+							}
+						}
 						if m := w.Prog.MethodValue(ms.At(i)); m != nil && !vf.scope[m] && m.Blocks != nil {
 							before := len(vf.scope)
 							w.refClosure(m, vf.scope)
@@ -124,6 +140,20 @@ func (cx *Ctx) newVFlow(entryKey string, entries ...*ssa.Function) *VFlow {
 							}
 						}
 					}
+				}
+			}
+		}
+	}
+	for changed := true; changed; {
+		changed = false
+		for _, fn := range w.sortedFuncs(vf.scope) {
+			for _, c := range callsIn(fn) {
+				if !c.Common().IsInvoke() {
+					continue
+				}
+				if m := w.soleImplementation(c.Common()); m != nil && m.Blocks != nil && !vf.scope[m] {
+					w.refClosure(m, vf.scope)
+					changed = true
 				}
 			}
 		}
@@ -201,6 +231,11 @@ func fieldOwner(t types.Type) string {
 func (vf *VFlow) targets(c ssa.CallInstruction) []*ssa.Function {
 	com := c.Common()
 	if com.IsInvoke() {
+		// an interface the module declares for its own use with a single implementation in the module: the call
+		// goes there (an unexported interface put in front of a concrete dependency changes nothing)
+		if f := vf.cx.W.soleImplementation(com); f != nil && f.Blocks != nil && vf.scope[f] {
+			return []*ssa.Function{f}
+		}
 		return nil
 	}
 	if f := calleeOf(c); f != nil {
@@ -325,7 +360,7 @@ func (vf *VFlow) walk(v ssa.Value, fl uint8, out LabelSet, seen map[string]bool,
 			top := vf.ctx[n-1]
 			for _, tg := range vf.targets(top) {
 				if tg == fn {
-					args := top.Common().Args
+					args := callArgs(top)
 					if idx < len(args) {
 						saved := vf.ctx
 						vf.ctx = append([]ssa.CallInstruction(nil), vf.ctx[:n-1]...)
@@ -337,7 +372,7 @@ func (vf *VFlow) walk(v ssa.Value, fl uint8, out LabelSet, seen map[string]bool,
 			}
 		}
 		for _, c := range cs {
-			args := c.Common().Args
+			args := callArgs(c)
 			if idx < len(args) {
 				saved := vf.ctx
 				vf.ctx = nil
@@ -1356,10 +1391,10 @@ func (vf *VFlow) ctxArg(a ssa.Value) ssa.Value {
 				idx = i
 			}
 		}
-		if idx < 0 || idx >= len(top.Common().Args) {
+		if idx < 0 || idx >= len(callArgs(top)) {
 			return a
 		}
-		a = top.Common().Args[idx]
+		a = callArgs(top)[idx]
 		ctx = ctx[:len(ctx)-1]
 	}
 	return a
@@ -1402,4 +1437,67 @@ func (vf *VFlow) CallArgSourcesByType(match func(ssa.CallInstruction) bool, isT 
 		}
 	}
 	return out, sites
+}
+
+// callArgs: the arguments of a call in the order of the callee's parameters (receiver first for an interface call).
+func callArgs(c ssa.CallInstruction) []ssa.Value {
+	com := c.Common()
+	if com.IsInvoke() {
+		return append([]ssa.Value{com.Value}, com.Args...)
+	}
+	return com.Args
+}
+
+// soleImplementation: for a call through an interface type declared in a non-mock package of the module (other than
+// the storage interfaces, which the embedding application implements) that exactly one non-mock module type
+// implements: that type's method. nil otherwise.
+func (w *World) soleImplementation(com *ssa.CallCommon) *ssa.Function {
+	n := namedOf(com.Value.Type())
+	if n == nil || n.Obj().Pkg() == nil || !isModulePath(n.Obj().Pkg().Path()) || isMockPath(n.Obj().Pkg().Path()) {
+		return nil
+	}
+	it, ok := n.Underlying().(*types.Interface)
+	if !ok || storageIfaces[n.Obj().Name()] || n.Obj().Exported() {
+		return nil
+	}
+	if w.soleImpl == nil {
+		w.soleImpl = map[*types.Named]types.Type{}
+	}
+	T, done := w.soleImpl[n]
+	if !done {
+		var found []types.Type
+		for _, p := range w.Pkgs {
+			if isMockPath(p.PkgPath) {
+				continue
+			}
+			sc := p.Types.Scope()
+			for _, nm := range sc.Names() {
+				tn, ok := sc.Lookup(nm).(*types.TypeName)
+				if !ok || tn.IsAlias() {
+					continue
+				}
+				nt, ok := tn.Type().(*types.Named)
+				if !ok || types.IsInterface(nt) || nt.TypeParams().Len() > 0 {
+					continue
+				}
+				if types.Implements(nt, it) {
+					found = append(found, nt)
+				} else if types.Implements(types.NewPointer(nt), it) {
+					found = append(found, types.NewPointer(nt))
+				}
+			}
+		}
+		if len(found) == 1 {
+			T = found[0]
+		}
+		w.soleImpl[n] = T
+	}
+	if T == nil {
+		return nil
+	}
+	sel := w.Prog.MethodSets.MethodSet(T).Lookup(com.Method.Pkg(), com.Method.Name())
+	if sel == nil {
+		return nil
+	}
+	return w.Prog.MethodValue(sel)
 }
